@@ -71,7 +71,7 @@ def run(ctx):
     rep.rule("C07.R2", "attribute resolution / callable misuse / helper arity under E_pot", 8)
     rep.rule("C07.R3", "energy atoms are covered by the generalized force", 3)
     rep.rule("C07.R4", "compliance form provides the full protocol from the same accessors", 4)
-    rep.rule("C07.R6", "Revolute as scalar subsystem: angle l and rate l_dot / force direction W_l are oriented about the same axis (else power = +dE/dt)", 4)
+    rep.rule("C07.R6", "Revolute as scalar subsystem: angle l and rate l_dot / force direction W_l are oriented about the same axis (else power = +dE/dt)", 2)
     from .c25 import orientation_rule
     orientation_rule(ctx, "C07.R6")
     rep.rule("C07.R8", "an energy is inherited only together with the force it belongs to: no class overrides h (or its element routine) while inheriting E_pot from a base that pairs E_pot with its own h", 5)
